@@ -254,6 +254,10 @@ func (r *Report) Finish(p *Program, verifDir string, controlsExpected map[string
 	for k, v := range r.extra {
 		cov[k] = v
 	}
+	if r.Assumptions == nil {
+		r.Assumptions = []string{}
+	}
+	r.Assumptions = append(r.Assumptions, "go/types and go/ssa (x/tools v0.29.0) model the program faithfully; only ./pkg/... without tests is analysed", "callees in dependencies are opaque unless a rule names them")
 	ev := map[string]interface{}{
 		"property_id": r.Property,
 		"tier":        r.Tier,
